@@ -317,15 +317,17 @@ class Case:
                     witnesses = []
                     if rng.random() < 0.4 and how != "obj":
                         try:
+                            # (a member of a link list can be unlinked, appended again and unlinked again: its witnesses may exist already)
                             if self.label != "file.sections":
-                                ws = f.create_section(id_, "witness")
+                                ws = f.sections[id_] if id_ in [x.name for x in f.sections] else f.create_section(id_, "witness")
                                 witnesses.append(("file.sections", lambda: [x.name for x in f.sections]))
-                            else:
-                                ws = f.sections[0] if False else f.create_block(id_, "witness")
-                                witnesses.append(("file.blocks", lambda: [x.name for x in f.blocks]))
-                            if isinstance(ws, nix.Section):
-                                ws.create_property(id_, [1])
+                                if id_ not in [x.name for x in ws.props]:
+                                    ws.create_property(id_, [1])
                                 witnesses.append(("section.props", lambda ws=ws: [x.name for x in f.sections[id_].props]))
+                            else:
+                                if id_ not in [x.name for x in f.blocks]:
+                                    f.create_block(id_, "witness")
+                                witnesses.append(("file.blocks", lambda: [x.name for x in f.blocks]))
                             wb = f.blocks["blk"] if "blk" in f.blocks else None
                             if wb is not None and self.label not in ("block.sources",):
                                 wsrc = wb.create_source("wsrc_%d" % si, "witness").create_source(id_, "witness")
